@@ -601,7 +601,8 @@ def run_to_events(run, allowed):
             for e in prev["cache"]:
                 raw[e["id"]] = e["sc"]
             for pid, v in (o.get("cand") or {}).items():
-                raw[int(pid)] = v
+                if int(pid) not in raw:          # probe scores are those of NEW candidates only
+                    raw[int(pid)] = v
             for e in s["cache"]:
                 raw[e["id"]] = e["sc"]
             n = len(s["cache"])
@@ -730,9 +731,21 @@ def gen_replay(c, prop, binp, name, policy="closure", nometa=(), late=1, allowed
     mon = Monitor(meta)
     st = {"states": total, "replayed": 0, "steps": 0, "nontrivial": set(), "drift": 0, "ties": 0, "conform": 0, "runs": []}
     outcome_classes = {}
+    spec_classes = {}
     with open(outp) as f:
         for line, row, e in zip(f, rows[1:], exps):
             run = json.loads(line)
+            for e_ in e:
+                eo = e_["out"]
+                res = eo.get("res", "")
+                if eo["kind"] == "send":
+                    res = "path" if res["id"] != 0 else "none"
+                kk = "%s:%s" % (eo["kind"], res)
+                spec_classes[kk] = spec_classes.get(kk, 0) + 1
+            if not run["steps"]:
+                st["drift"] += 1
+                c.drift("replay %s: the real path set could not be created (%s)" % (name, run.get("end")))
+                continue
             st["replayed"] += 1
             st["steps"] += len(run["steps"]) - 1
             hk = hist_key(row["h"])
@@ -755,6 +768,7 @@ def gen_replay(c, prop, binp, name, policy="closure", nometa=(), late=1, allowed
                 st["conform"] += 1
             st["runs"].append(run)
     st["outcomes"] = outcome_classes
+    st["spec_outcomes"] = spec_classes
     st["meta"] = meta
     if hs:
         mid = rows[1 + len(hs) // 2]["h"]
@@ -781,13 +795,18 @@ def record_validate(c, prop, binp, name, u, cfg=None, policy="closure", nometa=(
     if rc != 0:
         c.fail_tool("record harness failed rc=%s %s %s" % (rc, so[-300:], getattr(c, "last_stderr", "")[-300:]))
     mon = Monitor(meta)
-    st = {"runs": 0, "events": 0, "accepted_runs": 0, "nontrivial": 0, "rejected": 0, "outcomes": {}}
+    st = {"runs": 0, "events": 0, "accepted_runs": 0, "nontrivial": 0, "rejected": 0, "outcomes": {}, "actions": {}}
     allruns = []
     for line in open(outp):
         run = json.loads(line)
+        if not run["steps"]:
+            c.drift("record %s: the real path set could not be created (%s)" % (name, run.get("end")))
+            continue
         st["runs"] += 1
         st["events"] += len(run["steps"]) - 1
         acts = [s_["a"] for s_ in run["steps"][1:]]
+        for a_ in acts:
+            st["actions"][a_["a"]] = st["actions"].get(a_["a"], 0) + 1
         if nontrivial(acts):
             st["nontrivial"] += 1
         annotate_consumed(run, mon.cap)
@@ -800,7 +819,13 @@ def record_validate(c, prop, binp, name, u, cfg=None, policy="closure", nometa=(
         allruns.append(run)
     if not validate:
         return st
-    # ---- TLC validates the recorded executions; a rejected run is drift, it is taken out and the rest re-validated
+    return validate_runs(c, name, meta, allruns, st, fix_expiry=fix_expiry, fix_fifo=fix_fifo)
+
+
+def validate_runs(c, name, meta, allruns, st, fix_expiry=True, fix_fifo=True):
+    """TLC validates recorded executions; a rejected run is drift, it is taken out and the rest re-validated"""
+    import os
+    mon = Monitor(meta)
     tm = trace_meta(meta)
     cfgp = _cfgfile(c, name + "_trace.cfg", trace_cfg(meta, fix_expiry=fix_expiry, fix_fifo=fix_fifo))
     evruns = []
@@ -883,7 +908,10 @@ def binding_selftest(c, binp):
     rc, so = c.sh([binp, "record", mp, outp])
     if rc != 0:
         c.fail_tool("binding self-test: record failed")
-    runs = [json.loads(l) for l in open(outp)]
+    runs = [r_ for r_ in (json.loads(l) for l in open(outp)) if r_["steps"]]
+    if not runs:
+        c.drift("binding self-test skipped: the real path set could not be created")
+        return
     mon = Monitor(meta)
     rows = [trace_meta(meta)]
     for run in runs:
@@ -892,7 +920,8 @@ def binding_selftest(c, binp):
             rows += ev
     ticks = [i for i, e in enumerate(rows) if e.get("ev") == "tick" and e["res"] == "ok" and e["s"]["cache"]]
     if not ticks:
-        c.fail_tool("binding self-test: no successful lookup recorded")
+        c.drift("binding self-test skipped: no successful lookup in the recorded executions")
+        return
     i = ticks[len(ticks) // 2]
     variants = {"orig": rows}
     cor = [json.loads(json.dumps(e)) for e in rows]
@@ -906,7 +935,9 @@ def binding_selftest(c, binp):
         r = c.tlc(SD, "Trace_PathSet", cfg=cfgp, mode="trace", env={"TRACE": pth}, timeout=900, expect_violation=True)
         accepted = r.ok and not r.postcondition_failed and not r.violated
         if name == "orig" and not accepted:
-            c.fail_tool("binding self-test: unmodified trace rejected (see %s)" % r.out_path)
+            # the code under test does not follow the I-spec (any more): conformance drift, the self-test cannot be run
+            c.drift("binding self-test skipped: a recorded execution is not accepted by Trace_PathSet (see %s)" % r.out_path)
+            return
         if name != "orig" and accepted:
             c.fail_tool("binding self-test: trace variant '%s' was accepted - the trace spec does not constrain the code" % name)
     # adapter mutant: pretend the slot kept a path the policy rejects / an expired path -> the monitors must object
